@@ -21,8 +21,8 @@ Verdict(o) ==
       exp == Expected(c)
       ld == OperandDen(o.lout)
       rd == OperandDen(o.rout)
-      operandsOk == ld = Den(c.l) /\ (c.ctx # "binop" \/ rd = Den(c.r))
-      good == ~IsFailure(o.out) /\ OutcomeIs(o.out, exp) /\ operandsOk
+      operandsOk == ld = Den(c.l) /\ (c.ctx \notin ({"binop"} \cup PairCtx) \/ rd = Den(c.r))
+      good == ~IsFailure(o.out) /\ operandsOk /\ (OutcomeIs(o.out, exp) \/ (AllMayBeFalse(c) /\ OutcomeIs(o.out, Ok(<<B(FALSE)>>))))
       sig == IF IsFailure(o.out) THEN "logic|" \o o.out.k \o "|" \o c.ctx
              ELSE IF ~operandsOk THEN "logic|operand-denotation|" \o c.l.val \o "/" \o c.l.src \o "|" \o c.r.val \o "/" \o c.r.src
              ELSE "logic|" \o c.ctx \o "|" \o c.op \o "|" \o Den(c.l) \o "," \o Den(c.r) \o "|got-" \o KindOf(o.out)
